@@ -45,7 +45,9 @@ type Contract struct {
 	Float        string // "exact" (default) or "ideal"
 	Emits        string // name of callback parameter for the emit idiom
 	Inline       bool
-	NoOverflow   bool                   // do not generate overflow obligations (documented)
+	NoOverflow   bool // do not generate overflow obligations (documented)
+	QuickStride  int
+	ThoroughOnly bool
 	Valid        *Clause                // overflow obligations are proved under this validity condition
 	InlineCalls  map[string]map[int]int // callee key -> loop unrollings, for callees translated in place
 	Shapes       []Shape                // structured parameters: param = ctor(ghosts...)
@@ -78,13 +80,15 @@ type LemmaStmt struct {
 }
 
 type Lemma struct {
-	Name   string
-	PkgDir string
-	Props  []string
-	Splits []Split
-	Stmts  []LemmaStmt
-	File   string
-	Line   int
+	QuickStride  int
+	ThoroughOnly bool
+	Name         string
+	PkgDir       string
+	Props        []string
+	Splits       []Split
+	Stmts        []LemmaStmt
+	File         string
+	Line         int
 }
 
 type ContractSet struct {
@@ -411,6 +415,26 @@ func (cs *ContractSet) parseFile(path, pkgDir string) error {
 			cur.Emits = rest
 		case "nooverflow":
 			cur.NoOverflow = true
+		case "quickstride":
+			// quickstride N: the quick tier checks every N-th split instance (seeded offset); thorough checks all
+			n, err := strconv.Atoi(rest)
+			if err != nil || n < 1 {
+				return fail("quickstride: want a positive integer")
+			}
+			if cur != nil {
+				cur.QuickStride = n
+			} else if lem != nil {
+				lem.QuickStride = n
+			}
+		case "tier":
+			if rest != "thorough" {
+				return fail("tier: only 'thorough' is supported")
+			}
+			if cur != nil {
+				cur.ThoroughOnly = true
+			} else if lem != nil {
+				lem.ThoroughOnly = true
+			}
 		case "valid":
 			c, err := mkClause(rest, rl.line)
 			if err != nil {
